@@ -56,6 +56,37 @@ Section AnyCarrier.
   Proof. unfold Poly2D_call, Poly2D_vector. cbn [feval]. f_equal. apply map_ext. intros [k v]. reflexivity. Qed.
   Lemma gen_poly2doffset_call cs offs x : Poly2DOffset_call cs offs x = feval (FPoly2DOffset cs offs) x.
   Proof. unfold Poly2DOffset_call, Poly2DOffset_vector. cbn [feval]. f_equal. apply map_ext. intros [k v]. reflexivity. Qed.
+  (* RangesFunction: the comprehension over enumerate(self.ranges) with functions[k] and the slice of x over the range *)
+  Definition ranges_of (rs : list (nat * nat * fn A)) : list (nat * nat) := map fst rs.
+  Definition fobjs_of (rs : list (nat * nat * fn A)) : list (fobj A) := map (fun r => fobj_of (snd r)) rs.
+
+  Lemma ranges_loop {B} (g : fobj A -> nat * nat -> B) : forall (suf pre : list (nat * nat * fn A)),
+    map (fun kr => g (nth (fst kr) (fobjs_of (pre ++ suf)) null_fobj) (snd kr)) (combine (seq (length pre) (length (ranges_of suf))) (ranges_of suf))
+    = map (fun r => g (fobj_of (snd r)) (fst r)) suf.
+  Proof.
+    induction suf as [|r suf IH]; intros pre; [reflexivity|].
+    cbn [ranges_of map length seq combine fst snd]. f_equal.
+    - unfold fobjs_of. rewrite map_app, app_nth2 by (rewrite map_length; lia). rewrite map_length, Nat.sub_diag. reflexivity.
+    - specialize (IH (pre ++ [r])). rewrite <- app_assoc in IH. cbn [app] in IH. rewrite app_length in IH. cbn [length] in IH.
+      replace (length pre + 1)%nat with (S (length pre)) in IH by lia. unfold ranges_of in *. exact IH.
+  Qed.
+
+  Lemma fold_concat {B} (l : list (list B)) : forall acc, fold_left (fun a b => a ++ b) l acc = acc ++ concat l.
+  Proof. induction l as [|x l IH]; intros acc; simpl; [now rewrite app_nil_r|]. rewrite IH, app_assoc. reflexivity. Qed.
+
+  Lemma gen_ranges rs x :
+    RangesFunction_call (ranges_of rs) (fobjs_of rs) x = feval (FRanges rs) x /\
+    RangesFunction_deriv (ranges_of rs) (fobjs_of rs) x = fderiv (FRanges rs) x.
+  Proof.
+    unfold RangesFunction_call, RangesFunction_deriv, enum_ranges. cbv zeta. cbn [feval fderiv]. split.
+    - transitivity (vsum (map (fun r : nat * nat * fn A => f_call (fobj_of (snd r)) (slice (fst (fst r)) (snd (fst r)) x)) rs)).
+      + f_equal. exact (ranges_loop (fun f r => f_call f (slice (fst r) (snd r) x)) rs []).
+      + f_equal. apply map_ext. intros [[s e] g]. reflexivity.
+    - rewrite fold_concat. cbn [app].
+      transitivity (concat (map (fun r : nat * nat * fn A => f_deriv (fobj_of (snd r)) (slice (fst (fst r)) (snd (fst r)) x)) rs)).
+      + f_equal. exact (ranges_loop (fun f r => f_deriv f (slice (fst r) (snd r) x)) rs []).
+      + rewrite <- flat_map_concat_map. apply flat_map_ext. intros [[s e] g]. reflexivity.
+  Qed.
 End AnyCarrier.
 
 Local Open Scope R_scope.
